@@ -22,6 +22,11 @@ limits at this node's level.  C04.3 every level is checked on every placement
 path: either the leaf's limit routine walks the whole parent chain (its loop
 can be left only by a failed check or at the root), or every direct
 put/restore on a server must be preceded by such a walk.
+Added by the seeding rounds - C04.1 propagation calls are made on self, both
+as recursion and as an iterative walk, and un-placement lives only in
+Server.remove / _fix_invalid_placements (a bulk reset must not skip the per-
+instance bookkeeping); C04.3 every store into self.apps lies behind the
+admission predicate of every level, restore included.
 Does NOT decide that the counters equal the true counts over histories.
 """
 
